@@ -153,9 +153,9 @@ def run_tlc(module: str | Path, cfg: Path, *, workdir: Path, workers: int | str 
         kind = "invariant"
     elif _RE_ACTP.search(out):
         kind = "action_property"
-    elif "Temporal properties were violated" in out:
+    elif "Temporal properties were violated" in out or re.search(r"Error: Temporal property \S+ was violated", out):
         kind = "temporal"
-        violated.append("<temporal>")
+        violated += re.findall(r"Error: Temporal property (\S+) was violated", out) or ["<temporal>"]
     elif "Deadlock reached" in out:
         kind = "deadlock"
     elif "Error: Postcondition" in out:
